@@ -1,7 +1,6 @@
 package ledger
 
 import (
-	"errors"
 	"fmt"
 
 	"github.com/uptrace/bun"
@@ -42,14 +41,17 @@ func (h schemasResourceHandler) ResolveFilter(_ common.ResourceQuery[any], opera
 		}
 		return fmt.Sprintf("created_at %s ?", common.ConvertOperatorToSQL(operator)), []any{value}, nil
 	case "version":
+		if operator == queries.OperatorIn {
+			return "version IN (?)", []any{bun.In(value)}, nil
+		}
 		return fmt.Sprintf("version %s ?", common.ConvertOperatorToSQL(operator)), []any{value}, nil
 	default:
-		return "", nil, fmt.Errorf("unknown key '%s' when building query", property)
+		return "", nil, common.NewErrInvalidQuery("unknown key '%s' when building query", property)
 	}
 }
 
 func (h schemasResourceHandler) Expand(_ common.ResourceQuery[any], _ string) (*bun.SelectQuery, *common.JoinCondition, error) {
-	return nil, nil, errors.New("no expand supported")
+	return nil, nil, common.NewErrInvalidQuery("no expand supported")
 }
 
 var _ common.RepositoryHandler[any] = schemasResourceHandler{}
